@@ -187,7 +187,21 @@ impl Scenario for WalletScenario {
                 3 => {
                     if tip > base + 2 {
                         ctx.op("fork");
-                        let d = 1 + ch.below("depth", 30.min((tip - base - 1) as u64)) as u32;
+                        let mut d = 1 + ch.below("depth", 30.min((tip - base - 1) as u64)) as u32;
+                        // a third of the forks go just below a block that completed a 2^16-leaf subtree in some pool (the
+                        // rewind then lands inside a shard that the abandoned branch had completed)
+                        if ch.chance("fork.below_subtree_end", 1, 3) {
+                            let ends: Vec<u32> = POOLS.iter().flat_map(|p| s.chain.completed_subtrees(*p, tip).into_iter().map(|x| x.1)).filter(|h| *h > base + 1 && *h + 35 > tip && *h <= tip).collect();
+                            if !ends.is_empty() {
+                                let c = ends[ch.idx("fork.which_end", ends.len())];
+                                let below = 1 + ch.below("fork.below", 3) as u32;
+                                let fp = c.saturating_sub(below).max(base + 1);
+                                if fp < tip {
+                                    d = tip - fp;
+                                    ctx.probe("fork_just_below_a_subtree_completion");
+                                }
+                            }
+                        }
                         let extra = ch.below("extra", 12) as u32;
                         s.fork_at(tip - d, ctx);
                         let mut r = ch.fork_rng("fork.blocks");
